@@ -387,6 +387,16 @@ def reextract(fn, recorded_defs, present):
     return k
 
 
+# value-only library calls: repeating one of them is not observable (used to allow multi-use aliases to be inlined)
+PURE_CALLS = {
+    "max", "min", "sum", "abs", "len", "float", "int", "bool", "round", "sorted", "tuple", "list", "set", "dict", "range", "zip", "enumerate", "isinstance",
+    "norm", "dot", "vdot", "cross", "outer", "matmul", "sqrt", "sin", "cos", "tan", "arcsin", "arccos", "arctan", "arctan2", "sinh", "cosh", "arcsinh", "exp", "log", "log10", "floor", "ceil", "fabs", "sign",
+    "array", "asarray", "zeros", "ones", "zeros_like", "ones_like", "empty_like", "eye", "diag", "diagflat", "concatenate", "vstack", "hstack", "reshape", "ravel", "flatten", "squeeze", "transpose", "copy", "astype",
+    "amax", "amin", "nanmax", "nanmin", "argmax", "argmin", "any", "all", "nonzero", "flatnonzero", "where", "clip", "remainder", "mod", "fmod", "isclose", "allclose", "mean", "average", "trace", "det", "inv",
+    "isoformat", "total_seconds", "lower", "upper", "strip", "get", "keys", "values", "items", "index", "count", "wrapAngle2Pi", "wrapAngleNegPiPi", "fpe_equals", "safeArccos", "subtendedAngle",
+}
+
+
 def inline_new_locals(fn, recorded_names):
     """Undo `extract variable`: a local the recorded source did not have, bound once by `v = E` where nothing E
     reads is written afterwards in the function, is replaced by E at its uses (calls only when used once)."""
@@ -405,7 +415,28 @@ def inline_new_locals(fn, recorded_names):
                 loads = _loads(fn, v)
                 if not loads:
                     continue
-                has_call = any(isinstance(x, (ast.Call, ast.Await, ast.NamedExpr, ast.Yield, ast.YieldFrom)) for x in ast.walk(st.value))
+                # an object that is mutated through the name is not an alias of its initial value
+                pmap = {}
+                for par in ast.walk(fn):
+                    for ch in ast.iter_child_nodes(par):
+                        pmap[id(ch)] = par
+                mutated = False
+                for l in loads:
+                    par = pmap.get(id(l))
+                    if isinstance(par, ast.Attribute) and isinstance(pmap.get(id(par)), ast.Call) and pmap[id(par)].func is par and par.attr in ("append", "extend", "insert", "remove", "pop", "clear", "update", "add", "discard", "setdefault", "sort", "reverse", "fill", "resize", "put", "itemset", "popitem", "__setitem__"):
+                        mutated = True
+                    if isinstance(par, (ast.Subscript, ast.Attribute)) and isinstance(getattr(par, "ctx", None), (ast.Store, ast.Del)) and par.value is l:
+                        mutated = True
+                    if isinstance(par, ast.AugAssign) and par.target is l:
+                        mutated = True
+                if mutated:
+                    continue
+                fresh_container = isinstance(st.value, (ast.List, ast.Dict, ast.Set, ast.ListComp, ast.DictComp, ast.SetComp))
+                if fresh_container and len(loads) != 1:
+                    continue
+                has_call = any(isinstance(x, (ast.Await, ast.NamedExpr, ast.Yield, ast.YieldFrom)) for x in ast.walk(st.value)) or any(
+                    isinstance(x, ast.Call) and (x.func.attr if isinstance(x.func, ast.Attribute) else getattr(x.func, "id", "")) not in PURE_CALLS for x in ast.walk(st.value)
+                )
                 if has_call and len(loads) != 1:
                     continue
                 # every use lies in a later statement of the same block (or nested in one)
@@ -422,6 +453,19 @@ def inline_new_locals(fn, recorded_names):
                 line = getattr(st, "lineno", 0)
                 last = max(getattr(l, "end_lineno", None) or getattr(l, "lineno", 0) for l in loads)
                 own = {id(x) for x in ast.walk(st.value)}
+                # a store performed by the very statement that holds the last use happens after that use was read
+                last_load = max(loads, key=lambda l: (getattr(l, "lineno", 0), getattr(l, "col_offset", 0)))
+                for st2 in blk[i + 1 :]:
+                    for inner in ast.walk(st2):
+                        if isinstance(inner, (ast.Assign, ast.AugAssign, ast.AnnAssign)) and any(x is last_load for x in ast.walk(inner)):
+                            tgs = inner.targets if isinstance(inner, ast.Assign) else [inner.target]
+                            tg_ids = {id(x) for tg in tgs for x in ast.walk(tg)}
+                            if not any(id(l) in tg_ids for l in loads):
+                                own |= tg_ids
+                for prev in blk[:i]:
+                    # statements before the definition in its own block run before it, whatever line they carry
+                    # (a re-extracted definition inherits the line of the statement it was taken from)
+                    own |= {id(x) for x in ast.walk(prev)}
                 for x in ast.walk(fn):
                     if id(x) in own:
                         continue
@@ -507,6 +551,18 @@ def _helper_shape(fn):
     return ("stmts", stmts, ret)
 
 
+def _relocate(node, ref):
+    """Give every node of an inlined fragment the source position of the call it replaces (rules order statements
+    by line number; the helper's own lines lie elsewhere in the file)."""
+    for n in ast.walk(node):
+        if hasattr(n, "lineno") or isinstance(n, (ast.expr, ast.stmt)):
+            n.lineno = getattr(ref, "lineno", 1)
+            n.end_lineno = getattr(ref, "end_lineno", getattr(ref, "lineno", 1))
+            n.col_offset = getattr(ref, "col_offset", 0)
+            n.end_col_offset = getattr(ref, "end_col_offset", 0)
+    return node
+
+
 def inline_new_helpers(project, rec):
     """Calls, from recorded functions, of functions the record does not know (helpers extracted from them) are
     replaced in memory by the helper's body with the arguments substituted - the inverse of `extract function`.
@@ -527,6 +583,7 @@ def inline_new_helpers(project, rec):
     if not shapes:
         return 0
     count = 0
+    inlined_sites = {}
 
     def resolve(call, caller):
         f = call.func
@@ -580,7 +637,8 @@ def inline_new_helpers(project, rec):
                     for st in sh[1]:
                         env[st.targets[0].id] = subst(st.value, env)
                     nonlocal_count[0] += 1
-                    return ast.copy_location(subst(sh[2], env), c)
+                    inlined_sites[hfi.qualname] = inlined_sites.get(hfi.qualname, 0) + 1
+                    return _relocate(subst(sh[2], env), c)
 
             nonlocal_count = [0]
             for i, st in enumerate(list(fn.body)):
@@ -647,7 +705,8 @@ def inline_new_helpers(project, rec):
                         tail = [ast.copy_location(ast.Return(value=None), st)]
                     newst = pre + body + tail
                     for x in newst:
-                        ast.fix_missing_locations(x)
+                        _relocate(x, st)
+                    inlined_sites[hfi.qualname] = inlined_sites.get(hfi.qualname, 0) + 1
                     blk[i : i + 1] = newst or [ast.copy_location(ast.Pass(), st)]
                     used |= set(lren.values())
                     count += 1
@@ -660,6 +719,27 @@ def inline_new_helpers(project, rec):
                     pass
         if not changed:
             break
+    # a helper whose every call site was inlined is dead code for the analysis: rules that enumerate functions must
+    # not see its body a second time, out of context
+    for q, (hfi, ps, defaults, sh) in shapes.items():
+        if not inlined_sites.get(q):
+            continue
+        left = 0
+        for fi in project.functions.values():
+            if fi is hfi:
+                continue
+            for c in ast.walk(fi.node):
+                if isinstance(c, ast.Call):
+                    f = c.func
+                    nm = f.attr if isinstance(f, ast.Attribute) else getattr(f, "id", None)
+                    if nm == hfi.name:
+                        left += 1
+        if left == 0:
+            project.functions.pop(q, None)
+            if hfi.cls is not None and hfi.cls.methods.get(hfi.name) is hfi:
+                hfi.cls.methods.pop(hfi.name, None)
+            elif hfi.cls is None and hfi.module.functions.get(hfi.name) is hfi:
+                hfi.module.functions.pop(hfi.name, None)
     return count
 
 
